@@ -33,7 +33,9 @@ opkinds! {
     SliceRead = 10, "SliceRead";       // a = route
     SliceSwap = 11, "SliceSwap";       // a = route, b = i | j<<8
     SliceReplace = 12, "SliceReplace"; // a = route, b = i
-    VObserve = 13, "VObserve";         // a = Debug|Hash|Eq, f = observe-panic k
+    VObserve = 13, "VObserve";         // a = Debug|Hash|Eq|Display, f = observe-panic k
+    VMap = 14, "VMap";                 // a = 0 map(f) | 1 zip(w).map(f) | 2 map2(w, f), identity-like f; f = closure-panic k
+    VFromSlice = 15, "VFromSlice";     // V::<u32>::from_slice(&s[..a]) (Copy elements: order and default fill only)
     // ---- on the consuming iterator ----
     Next = 20, "Next";                 // b = 1 keep in bag, 0 drop at once
     NextBack = 21, "NextBack";
@@ -46,7 +48,7 @@ opkinds! {
     RevTakeDrop = 28, "RevTakeDrop";   // it.by_ref().rev().take(a).for_each(drop); f = drop-panic k
     BagDrop = 29, "BagDrop";           // caller destroys a previously yielded element
     TwinMake = 30, "TwinMake";         // fresh second iterator, a pulled from front, b from back
-    CloneProbe = 31, "CloneProbe";     // it.clone() iff IntoIter<Tok>: Clone
+    CloneProbe = 31, "CloneProbe";     // capability probes: a = 0 it.clone() iff Clone | 1 it.partial_cmp(it) iff PartialOrd | 2 it.as_ref() iff AsRef<[T]>
     ItCollect = 32, "ItCollect";       // It -> V; a = 0 collect, 1 rev().collect(), 2 skip(b).collect(); f = default-panic k
     Exhaust = 33, "Exhaust";           // for x in it.by_ref() { bag.push(x) }
     NextIntoInner = 34, "NextIntoInner"; // nested: pull one row/column vector and start an inner iterator on it
@@ -54,6 +56,7 @@ opkinds! {
     InnerNextBack = 36, "InnerNextBack";
     InnerObserve = 37, "InnerObserve";
     InnerDrop = 38, "InnerDrop";
+    Adapt = 39, "Adapt";               // a std-provided method on it.by_ref(): a = which (ADAPT_NAMES), b = k | keep<<8, f = closure-panic at the f-th callback
     // ---- terminals ----
     Drop = 40, "Drop";                 // drop whatever form is held; f = drop-panic k
     Forget = 41, "Forget";             // mem::forget
@@ -62,6 +65,7 @@ opkinds! {
     Fold = 44, "Fold";
     Rfold = 45, "Rfold";
     Fresh = 46, "Fresh";               // Gone -> Arr with new elements
+    Consume = 47, "Consume";           // a std-provided consuming method on the iterator by value: a = which (CONSUME_NAMES), b = keep, f = closure-panic
     // ---- matrix forms ----
     MFromFlat = 60, "MFromFlat";       // a: bit0 = by columns; Flat -> M  (from_row_array / from_col_array)
     MFromNested = 61, "MFromNested";   // a: bit0 = by columns; Nested -> M (from_row_arrays / from_col_arrays)
@@ -78,6 +82,7 @@ opkinds! {
     MIndex = 72, "MIndex";             // m[(i,j)], b = i | j<<8 ; a bit0 = replace through IndexMut
     MTakeLines = 73, "MTakeLines";     // M -> its public `rows` / `cols` vector-of-vectors (then vector ops apply)
     MMapRows = 74, "MMapRows";         // map_rows / map_cols with an identity closure that may panic (f)
+    MObserve = 75, "MObserve";         // a = Debug|Hash|Eq|Display on the matrix, f = observe-panic k
 }
 
 #[derive(Clone, Copy, PartialEq, Eq, Debug, Hash)]
@@ -143,3 +148,39 @@ pub struct Plan {
     pub faulty: bool,
     pub ops: Vec<Op>,
 }
+
+/// The std-provided `Iterator` / `DoubleEndedIterator` methods driven through `it.by_ref()`
+/// (operation `Adapt`). A realistic change is overriding one of them "for speed".
+pub const ADAPT_NAMES: [&str; 23] = [
+    "find", "rfind", "position", "rposition", "any", "all", "try_fold", "try_rfold", "try_for_each", "take_while+for_each", "skip_while+next",
+    "for_each", "rev+for_each", "zip+for_each", "step_by+take+for_each", "peekable+peek", "collect<Vec>", "max_by_key", "min_by_key", "reduce",
+    "rev+last", "count", "last",
+];
+pub const N_ADAPT: u32 = 23;
+pub fn adapt_back(which: u32) -> bool {
+    matches!(which, 1 | 3 | 7 | 12 | 20)
+}
+/// step_by parameters derived from k: (step, take)
+pub fn adapt_step(k: usize) -> (usize, usize) {
+    (1 + k % 3, 1 + (k / 3) % 3)
+}
+/// How many elements the adaptor consumes from an iterator holding `len` elements, by the
+/// documented semantics of the std adaptor (k already reduced modulo len + 2).
+pub fn adapt_planned(which: u32, k: usize, len: usize) -> usize {
+    match which {
+        0..=10 => (k + 1).min(len),
+        13 => (k + 1).min(len),
+        14 => {
+            let (s, t) = adapt_step(k);
+            (1 + (t - 1) * s).min(len)
+        }
+        15 => 1.min(len),
+        _ => len,
+    }
+}
+/// Every consumed element is shown to the callback, in order.
+pub fn adapt_exact(which: u32) -> bool {
+    which <= 12 || which == 17 || which == 18
+}
+pub const CONSUME_NAMES: [&str; 6] = ["for_each", "rev+for_each", "max_by_key", "min_by_key", "reduce", "collect<Vec>"];
+pub const N_CONSUME: u32 = 6;
